@@ -8,6 +8,8 @@ import os
 import random
 import shutil
 import sqlite3
+import sqlalchemy
+import sqlalchemy.event
 import struct
 import tempfile
 import time as _real_time
@@ -100,6 +102,45 @@ def make_engine(db_path, policies=None):
     e = engine_mod.KmipEngine(policies=policies, database_path=db_path)
     e._logger = logging.getLogger('kmip.server.engine')
     return e
+
+
+class busy_reader(object):
+    """Another connection in the middle of reading the database file: it holds SQLite's shared lock, so a writer can
+    prepare its transaction but its COMMIT finds the database locked (after the busy time-out, which the harness sets
+    to `timeout_ms` on the engine's own connections - a setting of the storage layer, not of PyKMIP)."""
+
+    def __init__(self, server, timeout_ms=60):
+        self.server = server
+        self.timeout_ms = timeout_ms
+
+    def __enter__(self):
+        eng = self.server.engine._data_store
+        ms = self.timeout_ms
+
+        def on_connect(dbapi_con, rec):
+            dbapi_con.execute('PRAGMA busy_timeout=%d' % ms)
+        self._on_connect = on_connect
+        sqlalchemy.event.listen(eng, 'connect', on_connect)
+        try:
+            eng.dispose()              # pooled connections were opened with the default time-out
+        except Exception:
+            pass
+        self.con = sqlite3.connect(self.server.db_path, timeout=0.05, isolation_level=None, check_same_thread=False)
+        self.con.execute('BEGIN')
+        self.cur = self.con.execute('select * from managed_objects')
+        self.cur.fetchone()
+        return self
+
+    def __exit__(self, *a):
+        try:
+            self.con.execute('ROLLBACK')
+        except Exception:
+            pass
+        self.con.close()
+        try:
+            sqlalchemy.event.remove(self.server.engine._data_store, 'connect', self._on_connect)
+        except Exception:
+            pass
 
 
 def dispose_engine(e):
